@@ -29,7 +29,9 @@ def comparator_table(prog, rule=None):
         # a comparator written over keys computed by private functions of the rank type (`tier()`, `weight()`), combined with
         # `then_with`: read with those spliced in
         from . import roles as _roles_c
-        b = _roles_c.ib(prog, key[0])
+        key_fns = [k_ for k_, f_ in prog.fns.items() if (f_.get("impl") or {}).get("self") == builders.RANK and not (f_.get("impl") or {}).get("trait")
+                   and len(f_.get("inputs") or []) == 1 and f_.get("kind") != "Closure" and not (f_.get("output") or "").startswith(("&", "std::string"))]
+        b = _roles_c.ib(prog, key[0], allow=key_fns)
     prog._cmp_body = b
     adt = prog.adts[builders.RANK]
     table = {}
